@@ -208,7 +208,7 @@ func (r *faultRun) open(o txfile.Options, newMax int) bool {
 	if err != nil {
 		r.note("open=err")
 		if e.Disk.Faults == f0 {
-			e.Viol = append(e.Viol, pagedrv.Violation{Class: "fault/open-failed-without-failure", Msg: fmt.Sprintf("Open failed although no I/O call failed: %v", err)})
+			e.Viol = append(e.Viol, pagedrv.Violation{Class: "fault/open-failed-without-failure", Msg: fmt.Sprintf("Open failed although no I/O call failed: %s", pagedrv.ErrChain(err))})
 		}
 		if e.Disk.Locked() {
 			e.Viol = append(e.Viol, pagedrv.Violation{Class: "fault/lock-leaked", Msg: "a failed Open left the file locked"})
@@ -220,8 +220,10 @@ func (r *faultRun) open(o txfile.Options, newMax int) bool {
 	if e.Maybe == nil {
 		e.SyncTxid()
 	}
-	if newMax >= 0 {
-		// did the resize happen? the header tells
+	{
+		// Which limit is in force? The header tells: a resize during which an
+		// I/O call failed may or may not have been applied (also when it is
+		// this later open that finds the result).
 		s := e.F.VerifSnapshot()
 		e.Cfg.MaxPages = int(s.MaxPages)
 		e.Opts.MaxSize = uint64(int(s.MaxPages) * e.Cfg.PageSize)
@@ -391,8 +393,12 @@ func runFault(cfg pagedrv.Cfg, path []O, rec *FaultRecipe) (viol []pagedrv.Viola
 				env.Viol = append(env.Viol, pagedrv.Violation{Class: "fault/next-commit-fails", Msg: "after the failures stopped, a new transaction on the same File does not commit"})
 			}
 			r.checkInProcess("after the follow-up commit")
+			followUpOK := r.outcome[len(r.outcome)-1] == "commit=ok"
 			if r.reopen(env.Opts, -1) {
-				env.Maybe = nil
+				if followUpOK {
+					// the successful commit replaced the header a failed commit may have left behind
+					env.Maybe = nil
+				}
 				r.checkReopened("after the follow-up commit and reopen")
 			}
 		}
@@ -570,14 +576,25 @@ func runC08(ctx *core.Ctx, pool *par.Pool) {
 	plans, effective, histories, calls := 0, 0, 0, 0
 	outcomes := map[string]int{}
 	runs := plan(cfgs, []seed{seedTwo, seedWAL, seedTail, seedFull}, depth, seedDepth)
+	// failures in transactions that use the overflow area of a full file (the file end moves in both directions)
+	ovSeed := seed{"full+overflow-bodies", seedFull.Ops}
+	ovDepth := 4
+	if !ctx.Quick() {
+		ovDepth = 6
+	}
+	runs = append(runs, bfsRun{pagedrv.CfgA, ovSeed, ovDepth})
 	share := ctx.Budget() / time.Duration(len(runs))
 	for _, run := range runs {
 		cfg := run.Cfg
+		alphabet := faultAlphabet(ctx.Quick())
+		if run.Seed.Name == ovSeed.Name {
+			alphabet = overflowBodyAlphabet()
+		}
 		sigs := map[string]bool{}
 		var tasks []FaultTask
 		endRun := ctx.Phase(share)
 		endBFS := ctx.Phase(share * 3 / 10)
-		st := xstate.BFS(ctx, pool, xstate.Spec{Cfg: cfg, Seed: run.Seed.Ops, Alphabet: faultAlphabet(ctx.Quick()), MaxDepth: run.Depth, Flags: []string{"iolog"},
+		st := xstate.BFS(ctx, pool, xstate.Spec{Cfg: cfg, Seed: run.Seed.Ops, Alphabet: alphabet, MaxDepth: run.Depth, Flags: []string{"iolog"},
 			OnTransition: func(from *xstate.Node, s *xstate.Succ, isNew bool, to *xstate.Node) {
 				sig := s.IOSig
 				switch s.Op.K {
